@@ -18,8 +18,9 @@ Open Scope N_scope.
    hand model was written for. *)
 Definition C08_enumeration_shape_pinned : pin_c08_enum_ok = true := eq_refl.
 
-(* which branch is live on the tree under test: (lookup, non-.j2, support-templates) repairs recognised, call path effect-free *)
-Eval vm_compute in (k_fix_lookup the_code, k_fix_nonj2 the_code, k_fix_suptpl the_code, k_path_pure the_code, k_ns_check the_code).
+(* which branch is live on the tree under test: (lookup, constant-reference, non-.j2, support-templates) repairs recognised,
+   call path effect-free, namespace/type file clash check present *)
+Eval vm_compute in (k_fix_lookup the_code, k_fix_constref the_code, k_fix_nonj2 the_code, k_fix_suptpl the_code, k_path_pure the_code, k_ns_check the_code).
 
 (* (1) For ALL configurations (language data, flags, overrides, template directories), ALL input sets and ALL file systems:
    if the real run (same options, no listing/dry-run flag) succeeds from an empty output tree, then --list-outputs with the same
@@ -47,7 +48,8 @@ Print Assumptions C08_list_modes_pure.
 (* (3) --list-inputs names every template and every DSDL file that influences the real run's output.  The influence set is
    DERIVED in the model: the include/import/from/extends closure (through the active loader chain) of every class template that
    can be selected for a generated item and of every support template that is rendered, the support resources copied verbatim,
-   and the DSDL sources of the dependency closure of every generated type.  Configuration inputs (lang/properties.yaml and
+   and the DSDL sources of every definition the DSDL front end reads while building a generated type (the types of its
+   fields AND the definitions referred to only inside expressions, transitively).  Configuration inputs (lang/properties.yaml and
    --configuration files) also influence the output; they are neither templates nor DSDL files, --list-inputs does not name
    them (Example C08_config_inputs_not_listed), and the statement excludes them explicitly.
    `ns_clash` (a namespace file whose path is a type's file: build_namespace_tree raises before anything is listed) and `rejected`
@@ -55,7 +57,7 @@ Print Assumptions C08_list_modes_pure.
    Residual hypotheses: no Python package file (.py/.pyc) is in the template closure, and no rendered support template refers
    to further templates (the support listing names the rendered resources only). *)
 Theorem C08_list_inputs_complete :
-  k_fix_lookup the_code = true -> k_fix_nonj2 the_code = true -> k_fix_suptpl the_code = true ->
+  k_fix_lookup the_code = true -> k_fix_constref the_code = true -> k_fix_nonj2 the_code = true -> k_fix_suptpl the_code = true ->
   forall (c : cfg) (i : inputs), f_lc (c_flags c) = false -> rejected c = false -> ns_clash the_code c i = false ->
   trig_py the_code c i = false -> trig_sup_refs the_code c = false ->
   forall x, In x (all_influences the_code c i) -> is_config_input c x = false ->
@@ -73,6 +75,16 @@ Theorem C08_list_inputs_complete_partial :
   forall f, exists out, run the_code (li_of c) i f = (f, out, Ok) /\ In x out.
 Proof. exact list_inputs_partial_thm. Qed.
 Print Assumptions C08_list_inputs_complete_partial.
+
+(* F-LIST-INPUTS-CONSTREF (known until design_notes/C08_constref_fix.patch is in the tree; then the premise is false, (3) is live and
+   this statement moves to History): a definition from a lookup directory that is referred to only inside an expression (array
+   capacity, constant value, @assert, @extent) influences the output and is not listed. *)
+Theorem C08_list_inputs_constref_refuted : k_fix_constref the_code = false ->
+  exists (c : cfg) (i : inputs) (x : list (list N)),
+    trig_constref i = true /\ trig_lookup i = false /\ eff_trig_tpl the_code c i = false /\ eff_trig_sup the_code c = false
+    /\ path_in x (influence_set the_code c i) = true /\ path_in x (listed c i) = false.
+Proof. intros H. exists (w_cfg SAsNeeded false None None), w_inputs_constref, [[108]; [68]]. exact (list_inputs_constref_refuted_w H). Qed.
+Print Assumptions C08_list_inputs_constref_refuted.
 
 (* (3b) What --list-inputs prints for the type generator is the set of PATHS of the listable files that its loader chain can
    serve (not names: the same basename in two directories gives two entries); for the support generator the path
